@@ -270,6 +270,13 @@ Definition board_case_model (c : board_case) :=
 Definition run_board_cases (cs : list board_case) : list nat :=
   idx_where (fun c => negb (named_games_eqb (board_case_model c) (bc_read c))) cs.
 
-(* abbreviations used by the generated case files to keep them small *)
-Definition ta (a : string) (d : nat) : trans (T:=PrimFloat.float) := mkT a (zero fops) d.
-Definition tp (p : PrimFloat.float) (d : nat) : trans (T:=PrimFloat.float) := mkT ""%string p d.
+(* abbreviations used by the generated case files to keep them small (and fast to parse):
+   target indices as binary numbers, the usual labels and dictionary keys by name *)
+Definition ta (a : string) (d : BinNums.N) : trans (T:=PrimFloat.float) := mkT a (zero fops) (BinNat.N.to_nat d).
+Definition tp (p : PrimFloat.float) (d : BinNums.N) : trans (T:=PrimFloat.float) := mkT ""%string p (BinNat.N.to_nat d).
+Definition tG := ta "Green". Definition tY := ta "Yellow". Definition tD := ta "Down".
+Definition tL := ta "Left". Definition tR := ta "Right". Definition tE := ta "Etha".
+Definition key_a := "game_a"%string. Definition key_b := "game_b"%string. Definition key_c := "game_c"%string.
+Arguments ta a%string_scope d%N_scope. Arguments tp p d%N_scope.
+Arguments tG d%N_scope. Arguments tY d%N_scope. Arguments tD d%N_scope.
+Arguments tL d%N_scope. Arguments tR d%N_scope. Arguments tE d%N_scope.
